@@ -42,7 +42,7 @@ class Rec:
     __slots__ = (
         "tid", "name", "role", "baton", "state", "wake_value", "deadline", "wait_gen", "prio",
         "fn", "is_root", "waiting_on", "spin_a", "spin_b", "spin_n", "exc", "obj", "steps",
-        "blocked_since", "settling", "step_wake",
+        "blocked_since", "settling", "step_wake", "stall_at", "stall_dur",
     )
 
     def __init__(self, tid, name, role, fn, is_root=False):
@@ -68,6 +68,8 @@ class Rec:
         self.blocked_since = 0.0
         self.settling = False
         self.step_wake = None
+        self.stall_at = None
+        self.stall_dur = 0.0
 
     def __repr__(self):
         return f"<T{self.tid} {self.role}:{self.name} {self.state}>"
@@ -124,6 +126,12 @@ class Kernel:
         # virtual CPU cost of one kernel step: with a non-zero cost the clock advances while threads compute, so network
         # deliveries and timer expiries can land in the middle of activity (not only when every thread is blocked)
         self.step_cost = sched_cfg["cpu"] if "cpu" in sched_cfg else self.rng.choice([0.0, 0.0, 1e-6, 2e-5])
+        # fault "stalled thread": a new thread may be frozen for a while at one of its first yield points (an OS that
+        # deschedules it, a GC pause); opt-in per scenario because timing oracles must allow for it
+        self.stall_cfg = sched_cfg.get("stall")
+        self.stalls_left = (self.stall_cfg or {}).get("max", 0)
+        self.stalled_total = 0.0
+        self.stall_spans: list = []
         self.tid_counter = 0
         self.spawned = 0
         self.thread_errors: list = []
@@ -175,6 +183,11 @@ class Kernel:
         rec.obj = obj
         rec.prio = self._new_prio()
         rec.state = RUNNABLE
+        cfg = self.stall_cfg
+        if cfg and self.stalls_left > 0 and self.rng.random() < cfg.get("q", 0.15):
+            self.stalls_left -= 1
+            rec.stall_at = self.rng.randrange(1, cfg.get("J", 40) + 1)
+            rec.stall_dur = self.rng.choice(cfg.get("durs", [0.05, 0.5, 3.0]))
         self.threads.append(rec)
         with self._live_lock:
             if self._live == 0:
@@ -397,6 +410,14 @@ class Kernel:
             self.now += self.step_cost
         if self.heap and self.heap[0][0] <= self.now:
             self._fire_due()   # events that are due (zero-latency deliveries, expired timers) land mid-activity
+        if cur.stall_at is not None and cur.steps >= cur.stall_at:
+            cur.stall_at = None
+            self.stalled_total += cur.stall_dur
+            self.stall_spans.append((self.now, self.now + cur.stall_dur))
+            self.fault("thread_stalled")
+            self.log("stall", cur.role, cur.stall_dur)
+            self.block(("stall", cur.tid), cur.stall_dur)
+            return
         root = self.root
         if root.step_wake is not None and self.steps >= root.step_wake and root.state == BLOCKED:
             root.step_wake = None
@@ -490,6 +511,10 @@ class Kernel:
     def advance(self, dt):
         self.sleep(dt)
         self.settle()
+
+    def stalled_within(self, t0, t1):
+        """Virtual seconds during [t0, t1] in which some thread was frozen by the stall fault."""
+        return sum(max(0.0, min(t1, e) - max(t0, s)) for s, e in self.stall_spans)
 
     # ------------------------------------------------------------------ end of run
     def finish(self, real_timeout=20.0):
